@@ -83,6 +83,27 @@ Fixpoint type_tokens (t : ty) (v : option string) : list ctoken :=
 (** a type-name as it appears in a cast or under sizeof *)
 Definition type_name (t : ty) : list ctoken := type_tokens t None.
 
+(** The grammar below knows the five typedef names as type-names (derived declarators -- pointers,
+    arrays -- never occur in a cast or under sizeof in generated code: the IR machine and tensora
+    allocate arrays of int32_t and double only). *)
+Definition base_name (t : ty) : option string :=
+  match t with
+  | TBoolean => Some "bool"%string
+  | TInteger => Some "int32_t"%string
+  | TFloat => Some "double"%string
+  | TTensor => Some "taco_tensor_t"%string
+  | TMode => Some "taco_mode_t"%string
+  | _ => None
+  end.
+
+Definition base_type (s : string) : option ty :=
+  if String.eqb s "bool" then Some TBoolean
+  else if String.eqb s "int32_t" then Some TInteger
+  else if String.eqb s "double" then Some TFloat
+  else if String.eqb s "taco_tensor_t" then Some TTensor
+  else if String.eqb s "taco_mode_t" then Some TMode
+  else None.
+
 (** * Trees *)
 
 Inductive binop : Type :=
@@ -168,13 +189,14 @@ Inductive Derives : nat -> list ctoken -> cexpr -> Prop :=
   | D_bin o ts1 ts2 a b :
       Derives (op_level o) ts1 a -> Derives (S (op_level o)) ts2 b ->
       Derives (op_level o) (ts1 ++ op_token o :: ts2) (CBin o a b)
-  | D_cast t ts a :
-      Derives LCast ts a ->
-      Derives LCast (TLParen :: type_name t ++ TRParen :: ts) (CCast t a)
+  | D_cast t s ts a :
+      base_name t = Some s -> Derives LCast ts a ->
+      Derives LCast (TLParen :: TTypeName s :: TRParen :: ts) (CCast t a)
   | D_neg ts a :
       Derives LCast ts a -> Derives LUnary (TMinus :: ts) (CNeg a)
-  | D_sizeof t :
-      Derives LUnary (TSizeof :: TLParen :: type_name t ++ [TRParen]) (CSizeof t)
+  | D_sizeof t s :
+      base_name t = Some s ->
+      Derives LUnary [TSizeof; TLParen; TTypeName s; TRParen] (CSizeof t)
   | D_index ts1 ts2 a i :
       Derives LPostfix ts1 a -> Derives LOr ts2 i ->
       Derives LPostfix (ts1 ++ TLBrack :: ts2 ++ [TRBrack]) (CIndex a i)
@@ -255,75 +277,69 @@ Inductive pmode : Type :=
   | MBin (l : nat) (acc : cexpr)
   | MPost (acc : cexpr).
 
-(** reads a type-name: a base name followed by [* restrict], [[]], [[n]] suffixes *)
-Definition base_type (s : string) : option ty :=
-  if String.eqb s "bool" then Some TBoolean
-  else if String.eqb s "int32_t" then Some TInteger
-  else if String.eqb s "double" then Some TFloat
-  else if String.eqb s "taco_tensor_t" then Some TTensor
-  else if String.eqb s "taco_mode_t" then Some TMode
-  else None.
+(** token-shape helpers (keep the pattern matching of the parser one level deep) *)
+Definition cast_start (ts : list ctoken) : option (string * list ctoken) :=
+  match ts with TLParen :: TTypeName s :: r => Some (s, r) | _ => None end.
 
-Fixpoint parse_type_suffix (t : ty) (ts : list ctoken) {struct ts} : ty * list ctoken :=
-  match ts with
-  | TStar :: TRestrict :: r => parse_type_suffix (TPointer t) r
-  | TLBrack :: TRBrack :: r => parse_type_suffix (TArray t) r
-  | TLBrack :: TInt z :: TRBrack :: r =>
-      if (0 <=? z)%Z then parse_type_suffix (TFixedArray t z) r else (t, ts)
-  | TLBrack :: TMinus :: TInt z :: TRBrack :: r =>
-      if (0 <? z)%Z then parse_type_suffix (TFixedArray t (- z)%Z) r else (t, ts)
-  | _ => (t, ts)
-  end.
+Definition sizeof_arg (ts : list ctoken) : option (string * list ctoken) :=
+  match ts with TLParen :: TTypeName s :: TRParen :: r => Some (s, r) | _ => None end.
 
-Definition parse_type (ts : list ctoken) : option (ty * list ctoken) :=
-  match ts with
-  | TTypeName s :: r =>
-      match base_type s with Some t => Some (parse_type_suffix t r) | None => None end
-  | _ => None
-  end.
+Definition arrow_field (ts : list ctoken) : option (string * list ctoken) :=
+  match ts with TId f :: r => Some (f, r) | _ => None end.
 
-Fixpoint cparse_m (fuel : nat) (m : pmode) (ts : list ctoken) {struct fuel}
-  : option (cexpr * list ctoken) :=
-  match fuel with
-  | O => None
-  | S n =>
+Definition expect_rparen (ts : list ctoken) : option (list ctoken) :=
+  match ts with TRParen :: r => Some r | _ => None end.
+
+Definition expect_rbrack (ts : list ctoken) : option (list ctoken) :=
+  match ts with TRBrack :: r => Some r | _ => None end.
+
+Definition expect_comma (ts : list ctoken) : option (list ctoken) :=
+  match ts with TComma :: r => Some r | _ => None end.
+
+(** one step of the parser, the recursive calls abstracted as [rec] *)
+Definition cparse_step (rec : pmode -> list ctoken -> option (cexpr * list ctoken))
+  (m : pmode) (ts : list ctoken) : option (cexpr * list ctoken) :=
     match m with
     | MExpr l =>
         if l <=? 5 then
-          match cparse_m n (MExpr (S l)) ts with
-          | Some (a, r) => cparse_m n (MBin l a) r
+          match rec (MExpr (S l)) ts with
+          | Some (a, r) => rec (MBin l a) r
           | None => None
           end
         else if l =? 6 then
-          match ts with
-          | TLParen :: TTypeName s :: r =>
-              match parse_type (TTypeName s :: r) with
-              | Some (t, TRParen :: r1) =>
-                  match cparse_m n (MExpr 6) r1 with
+          match cast_start ts with
+          | Some (s, r) =>
+              match base_type s, expect_rparen r with
+              | Some t, Some r1 =>
+                  match rec (MExpr 6) r1 with
                   | Some (a, r2) => Some (CCast t a, r2)
                   | None => None
                   end
-              | _ => None
+              | _, _ => None
               end
-          | _ => cparse_m n (MExpr 7) ts
+          | None => rec (MExpr 7) ts
           end
         else if l =? 7 then
           match ts with
           | TMinus :: r =>
-              match cparse_m n (MExpr 6) r with
+              match rec (MExpr 6) r with
               | Some (a, r1) => Some (CNeg a, r1)
               | None => None
               end
-          | TSizeof :: TLParen :: r =>
-              match parse_type r with
-              | Some (t, TRParen :: r1) => Some (CSizeof t, r1)
-              | _ => None
+          | TSizeof :: r =>
+              match sizeof_arg r with
+              | Some (s, r1) =>
+                  match base_type s with
+                  | Some t => Some (CSizeof t, r1)
+                  | None => None
+                  end
+              | None => None
               end
-          | _ => cparse_m n (MExpr 8) ts
+          | _ => rec (MExpr 8) ts
           end
         else if l =? 8 then
-          match cparse_m n (MExpr 9) ts with
-          | Some (a, r) => cparse_m n (MPost a) r
+          match rec (MExpr 9) ts with
+          | Some (a, r) => rec (MPost a) r
           | None => None
           end
         else if l =? 9 then
@@ -334,9 +350,10 @@ Fixpoint cparse_m (fuel : nat) (m : pmode) (ts : list ctoken) {struct fuel}
           | TTrue :: r => Some (CBool true, r)
           | TFalse :: r => Some (CBool false, r)
           | TLParen :: r =>
-              match cparse_m n (MExpr 0) r with
-              | Some (a, TRParen :: r1) => Some (a, r1)
-              | _ => None
+              match rec (MExpr 0) r with
+              | Some (a, r') =>
+                  match expect_rparen r' with Some r1 => Some (a, r1) | None => None end
+              | None => None
               end
           | _ => None
           end
@@ -347,8 +364,8 @@ Fixpoint cparse_m (fuel : nat) (m : pmode) (ts : list ctoken) {struct fuel}
             match token_op t with
             | Some o =>
                 if op_level o =? l then
-                  match cparse_m n (MExpr (S l)) r with
-                  | Some (b, r1) => cparse_m n (MBin l (CBin o acc b)) r1
+                  match rec (MExpr (S l)) r with
+                  | Some (b, r1) => rec (MBin l (CBin o acc b)) r1
                   | None => None
                   end
                 else Some (acc, ts)
@@ -359,24 +376,49 @@ Fixpoint cparse_m (fuel : nat) (m : pmode) (ts : list ctoken) {struct fuel}
     | MPost acc =>
         match ts with
         | TLBrack :: r =>
-            match cparse_m n (MExpr 0) r with
-            | Some (i, TRBrack :: r1) => cparse_m n (MPost (CIndex acc i)) r1
-            | _ => None
-            end
-        | TArrow :: TId f :: r => cparse_m n (MPost (CArrow acc f)) r
-        | TLParen :: r =>
-            match cparse_m n (MExpr 0) r with
-            | Some (a, TRParen :: r1) => cparse_m n (MPost (CCall1 acc a)) r1
-            | Some (a, TComma :: r1) =>
-                match cparse_m n (MExpr 0) r1 with
-                | Some (b, TRParen :: r2) => cparse_m n (MPost (CCall2 acc a b)) r2
-                | _ => None
+            match rec (MExpr 0) r with
+            | Some (i, r') =>
+                match expect_rbrack r' with
+                | Some r1 => rec (MPost (CIndex acc i)) r1
+                | None => None
                 end
-            | _ => None
+            | None => None
+            end
+        | TArrow :: r =>
+            match arrow_field r with
+            | Some (f, r1) => rec (MPost (CArrow acc f)) r1
+            | None => None
+            end
+        | TLParen :: r =>
+            match rec (MExpr 0) r with
+            | Some (a, r') =>
+                match expect_rparen r' with
+                | Some r1 => rec (MPost (CCall1 acc a)) r1
+                | None =>
+                    match expect_comma r' with
+                    | Some r1 =>
+                        match rec (MExpr 0) r1 with
+                        | Some (b, r'') =>
+                            match expect_rparen r'' with
+                            | Some r2 => rec (MPost (CCall2 acc a b)) r2
+                            | None => None
+                            end
+                        | None => None
+                        end
+                    | None => None
+                    end
+                end
+            | None => None
             end
         | _ => Some (acc, ts)
         end
-    end
+    end.
+
+Fixpoint cparse_m (fuel : nat) (m : pmode) (ts : list ctoken) {struct fuel}
+  : option (cexpr * list ctoken) :=
+  match fuel with
+  | O => None
+  | S n => cparse_step (cparse_m n) m ts
   end.
 
 Definition cparse_fuel (ts : list ctoken) : nat := 12 * List.length ts + 12.
